@@ -156,6 +156,9 @@ func (w *world) nodePub(name string) posCrypto.PublicKey {
 
 func evOfID(id int) evSpec { return evSpec{N: id / 10, Var: id % 10, Cheat: -1} }
 
+// evidence sets built around one really signed relay (Cheat >= 0) are remembered by id
+var cheatSpecs = map[int]evSpec{}
+
 // buildMsg turns an abstract transaction into the real message.
 func (w *world) buildMsg(a absTx) sdk.ProtoMsg {
 	tx := hx.Step(a)
@@ -446,6 +449,11 @@ var e6dup = evSpec{N: 6, Var: 3, Cheat: -1}
 var e8 = evSpec{N: 8, Var: 1, Cheat: -1}
 
 func (w *world) evidence(node, app int, chain string, S int64, e evSpec) *evidence {
+	if e.Cheat >= 0 {
+		cheatSpecs[e.id()] = e
+	} else if c, ok := cheatSpecs[e.id()]; ok && e.Var == 4 {
+		e = c
+	}
 	return w.b.get(evKey{Node: node, App: app, Chain: chain, SessionH: S, N: e.N, Ev: e.id(), Dup: e.Var == 3 && e.Cheat < 0, Cheat: e.Cheat})
 }
 
